@@ -1,5 +1,6 @@
 //! fdv — bounded-exhaustive exploration (model checking) harness for alusch/flipdot.
 pub mod bfs;
+pub mod ctlsys;
 pub mod devices;
 pub mod props;
 pub mod refmodel;
